@@ -69,6 +69,71 @@ def length_check_edges(F, B):
     return out
 
 
+def _thin_ctor(F, PROT, thin, rep, tag):
+    # ------------------------------------------------------------ R-THIN-CTOR
+    intro = {}  # body key -> list of (span, what)
+    for b in F.body_list:
+        if b["kind"] not in ("Fn", "AssocFn", "Closure"):
+            continue
+        for bl in b["blocks"]:
+            for s in bl["stmts"]:
+                if s["k"] != "assign":
+                    continue
+                rv = s["rv"]
+                if rv["k"] == "cast":
+                    pl = operand_place(rv["op"])
+                    if pl is None or "ty" not in pl:
+                        continue
+                    if in_typestate(F, PROT, rv["ty"]) and not in_typestate(F, PROT, pl["ty"]):
+                        intro.setdefault(b["key"], []).append((s["span"], "cast %s -> %s" % (F.ts(pl["ty"]), F.ts(rv["ty"]))))
+                elif rv["k"] == "agg" and rv.get("agg") == "adt" and rv["adt"] in (thin, PROT):
+                    ops_in = any(in_typestate(F, PROT, (operand_place(o) or {}).get("ty", 0)) for o in rv["ops"] if operand_place(o))
+                    intro.setdefault(b["key"], []).append((s["span"], "construction of %s" % rv["adt"].split("::")[-1]))
+    unsafe_ctors = set()
+    checked = 0
+    work = list(intro.items())
+    seen_keys = set()
+    while work:
+        key, sites = work.pop()
+        if key in seen_keys:
+            continue
+        seen_keys.add(key)
+        b = F.body(key)
+        owner = F.body(b["owner"]) if b["kind"] == "Closure" else b
+        params_in = any(in_typestate(F, PROT, t) for t in owner.get("inputs", []))
+        ik = "%s/typestate-entry" % key
+        if params_in:
+            rep.ok("R-THIN-CTOR", ik, "derived from a value already carrying the invariant", cfg=tag)
+            continue
+        if owner.get("unsafe"):
+            unsafe_ctors.add(owner["key"])
+            rep.ok("R-THIN-CTOR", ik, "unsafe constructor: obligation moves to its call sites", cfg=tag)
+            # callers
+            for cb in F.body_list:
+                for bi, bl in enumerate(cb["blocks"]):
+                    t = bl["term"]
+                    if t["k"] == "call" and atomics.callee_of(t) == owner["key"]:
+                        work.append((cb["key"], [(t["span"], "call of " + owner["key"])]))
+                        intro.setdefault(cb["key"], [])
+                        _call_site(F, cb, bi, t, rep, tag, PROT)
+            continue
+        # a safe function that conjures the typestate directly: must be behind the length check
+        B = cfg.Body(b)
+        edges = length_check_edges(F, B)
+        rep.bad("R-THIN-CTOR", ik, "a safe function creates a value typed as length-checked (%s) without going through the checked conversion" % sites[0][1], F.loc(b, sites[0][0]), tag) if not edges else rep.ok("R-THIN-CTOR", ik, cfg=tag)
+
+
+def rule_thin_ctor(ctx, rep):
+    """Every entry into the length-checked typestate from safe code is behind `recorded length == slice length` (shared with C07:
+    a lying iterator whose len() changes between calls must end in the checked conversion's panic)."""
+    for tag, F, E in ctx.each():
+        PROT = prot_path(F)
+        thin = F.handle_paths.get("ThinArc")
+        if PROT and thin:
+            _thin_ctor(F, PROT, thin, rep, tag)
+    rep.floor("R-THIN-CTOR", 3, "unchecked cast, its unsafe wrapper, the checked call site")
+
+
 def run(ctx, rep):
     for tag, F, E in ctx.each():
         A = balance.analysis(tag, F, E)
@@ -78,57 +143,7 @@ def run(ctx, rep):
         if not PROT or not thin or not HWL:
             rep.bad("ANCHOR-LOST", "types", "HeaderSliceWithLengthProtected / HeaderWithLength / ThinArc not found", None, tag)
             continue
-        # ------------------------------------------------------------ R-THIN-CTOR
-        intro = {}  # body key -> list of (span, what)
-        for b in F.body_list:
-            if b["kind"] not in ("Fn", "AssocFn", "Closure"):
-                continue
-            for bl in b["blocks"]:
-                for s in bl["stmts"]:
-                    if s["k"] != "assign":
-                        continue
-                    rv = s["rv"]
-                    if rv["k"] == "cast":
-                        pl = operand_place(rv["op"])
-                        if pl is None or "ty" not in pl:
-                            continue
-                        if in_typestate(F, PROT, rv["ty"]) and not in_typestate(F, PROT, pl["ty"]):
-                            intro.setdefault(b["key"], []).append((s["span"], "cast %s -> %s" % (F.ts(pl["ty"]), F.ts(rv["ty"]))))
-                    elif rv["k"] == "agg" and rv.get("agg") == "adt" and rv["adt"] in (thin, PROT):
-                        ops_in = any(in_typestate(F, PROT, (operand_place(o) or {}).get("ty", 0)) for o in rv["ops"] if operand_place(o))
-                        intro.setdefault(b["key"], []).append((s["span"], "construction of %s" % rv["adt"].split("::")[-1]))
-        unsafe_ctors = set()
-        checked = 0
-        work = list(intro.items())
-        seen_keys = set()
-        while work:
-            key, sites = work.pop()
-            if key in seen_keys:
-                continue
-            seen_keys.add(key)
-            b = F.body(key)
-            owner = F.body(b["owner"]) if b["kind"] == "Closure" else b
-            params_in = any(in_typestate(F, PROT, t) for t in owner.get("inputs", []))
-            ik = "%s/typestate-entry" % key
-            if params_in:
-                rep.ok("R-THIN-CTOR", ik, "derived from a value already carrying the invariant", cfg=tag)
-                continue
-            if owner.get("unsafe"):
-                unsafe_ctors.add(owner["key"])
-                rep.ok("R-THIN-CTOR", ik, "unsafe constructor: obligation moves to its call sites", cfg=tag)
-                # callers
-                for cb in F.body_list:
-                    for bi, bl in enumerate(cb["blocks"]):
-                        t = bl["term"]
-                        if t["k"] == "call" and atomics.callee_of(t) == owner["key"]:
-                            work.append((cb["key"], [(t["span"], "call of " + owner["key"])]))
-                            intro.setdefault(cb["key"], [])
-                            _call_site(F, cb, bi, t, rep, tag, PROT)
-                continue
-            # a safe function that conjures the typestate directly: must be behind the length check
-            B = cfg.Body(b)
-            edges = length_check_edges(F, B)
-            rep.bad("R-THIN-CTOR", ik, "a safe function creates a value typed as length-checked (%s) without going through the checked conversion" % sites[0][1], F.loc(b, sites[0][0]), tag) if not edges else rep.ok("R-THIN-CTOR", ik, cfg=tag)
+        _thin_ctor(F, PROT, thin, rep, tag)
         # ------------------------------------------------------------ R-PROT-MUT
         nmut = 0
         for b in F.body_list:
